@@ -171,6 +171,13 @@ SCENARIO("ctor_so3") {
   G X(t, R);
   out("X", X.coeffs());
 }
+SCENARIO("ctor_isometry") {
+  // the isometry of a symbolic valid element: its rotation block ranges over every rotation matrix
+  G X0 = sym_group<G>("x");
+  Eigen::Transform<Sym, 3, Eigen::Isometry> h = X0.isometry();
+  G X(h);
+  out("X0", X0.coeffs()); out("X", X.coeffs());
+}
 SCENARIO("accessors") {
   G X = sym_group<G>("x");
   out("X", X.coeffs()); out("x", X.x()); out("y", X.y()); out("z", X.z());
